@@ -383,15 +383,27 @@ class SV:
 
     # -- rounding -----------------------------------------------------------
     def rint(self):
-        """round half to even (np.round / np.rint)"""
+        """round half to even (np.round / np.rint): a fresh Int k with |x - k| <= 1/2 and the tie rule
+        (no nested to_int terms: z3 treats it as mixed integer linear arithmetic)"""
         if self.is_int:
             return self
-        x = self.r
-        f = z3.ToInt(x)
-        fr = x - z3.ToReal(f)
+        eng = Engine.cur
+        x = z3.simplify(self.r)
+        it = as_int_term(x)
+        if it is not None:       # already integer valued: rounding is the identity
+            return SV(z3.simplify(it), is_int=True)
+        cache = eng.__dict__.setdefault("rint_cache", {})
+        hit = cache.get(x.get_id())
+        if hit is not None:      # same term rounded again (z3 hash-conses terms): same integer
+            return hit[1]
+        k = eng.z3_int("rnd")
+        kr = z3.ToReal(k)
         half = z3.RealVal(1) / 2
-        r = z3.If(fr < half, f, z3.If(fr > half, f + 1, z3.If(f % 2 == 0, f, f + 1)))
-        return SV(z3.simplify(z3.ToReal(r)), is_int=True)
+        eng.assume(z3.And(kr - half <= x, x <= kr + half,
+                          z3.Implies(x - kr == half, k % 2 == 0), z3.Implies(kr - x == half, k % 2 == 0)))
+        r = SV(k, is_int=True)
+        cache[x.get_id()] = (x, r)
+        return r
 
     def floor(self):
         if self.is_int:
@@ -481,6 +493,70 @@ class SV:
 
     def all(self):
         return self != 0
+
+
+def _scaled(x, depth=0):
+    """(num, den, t): x == (num/den) * t with t an Int-sorted term, or None when x is not syntactically a rational
+    multiple of an integer term (integer combinations of to_real(int), constants, if-then-else of such)"""
+    from fractions import Fraction
+    from math import gcd
+    if depth > 60:
+        return None
+    if x.is_int():
+        return (1, 1, x)
+    if z3.is_rational_value(x):
+        return (x.numerator_as_long(), x.denominator_as_long(), z3.IntVal(1))
+    if z3.is_to_real(x):
+        return (1, 1, x.arg(0))
+    if z3.is_app_of(x, z3.Z3_OP_UMINUS):
+        r = _scaled(x.arg(0), depth + 1)
+        return None if r is None else (-r[0], r[1], r[2])
+    if z3.is_mul(x):
+        num, den, terms = 1, 1, []
+        for c in x.children():
+            r = _scaled(c, depth + 1)
+            if r is None:
+                return None
+            num *= r[0]
+            den *= r[1]
+            if not (z3.is_int_value(r[2]) and r[2].as_long() == 1):
+                terms.append(r[2])
+        g = gcd(num, den) or 1
+        num, den = num // g, den // g
+        t = z3.IntVal(1)
+        if terms:
+            t = terms[0]
+            for u in terms[1:]:
+                t = t * u
+        return (num, den, t)
+    if z3.is_add(x) or z3.is_sub(x) or z3.is_app_of(x, z3.Z3_OP_ITE):
+        ite = z3.is_app_of(x, z3.Z3_OP_ITE)
+        ch = x.children()[1:] if ite else x.children()
+        rs = [_scaled(c, depth + 1) for c in ch]
+        if any(r is None for r in rs):
+            return None
+        L = 1
+        for r in rs:
+            L = L * r[1] // gcd(L, r[1])
+        ts = [(r[0] * (L // r[1])) * r[2] if r[0] * (L // r[1]) != 1 else r[2] for r in rs]
+        if ite:
+            t = z3.If(x.arg(0), ts[0], ts[1])
+        elif z3.is_add(x):
+            t = z3.Sum(ts) if len(ts) > 1 else ts[0]
+        else:
+            t = ts[0]
+            for u in ts[1:]:
+                t = t - u
+        return (1, L, t)
+    return None
+
+
+def as_int_term(x, depth=0):
+    """Int-sorted term equal to the Real term x when x is syntactically integer valued; None otherwise"""
+    r = _scaled(x)
+    if r is None or r[1] != 1:
+        return None
+    return r[2] if r[0] == 1 else r[0] * r[2]
 
 
 class SIdx:
